@@ -56,17 +56,33 @@ Print Assumptions C16_keyfile_spec.
 
 (* seed file: used only when acceptable; a present seed failing the checks contributes nothing and is
    unlinked (a directory cannot be unlinked: it stays, unused); without --force an insecure seed
-   directory stops the daemon and the seed is neither read nor removed *)
+   directory stops the daemon and the seed is neither read nor removed.  sr_hang: the start blocks in
+   open() — exactly when the seed is a FIFO and the source opens it without O_NONBLOCK (GenPath's
+   seed_open_nonblock, observed on every run) *)
 Theorem C16_seed_spec : forall (force : bool) (euid tg : N) (o : fobs) (chain : list dstat),
   let r := seed_step force euid tg o chain in
   (sr_used r = true -> seed_acceptable euid o) /\
-  (sr_refuse r = None -> seed_present o -> ~ seed_acceptable euid o ->
+  (sr_refuse r = None -> sr_hang r = false -> seed_present o -> ~ seed_acceptable euid o ->
      sr_used r = false /\ (~ seed_is_dir o -> sr_removed r = true)) /\
-  (sr_refuse r = None -> seed_acceptable euid o -> sr_used r = true /\ sr_removed r = false) /\
+  (sr_refuse r = None -> seed_acceptable euid o ->
+     sr_hang r = false /\ sr_used r = true /\ sr_removed r = false) /\
   (force = false -> (sr_refuse r = None <-> Forall (dir_ok euid tg 0) chain)) /\
-  (sr_refuse r <> None -> sr_used r = false /\ sr_removed r = false).
+  (sr_refuse r <> None -> sr_hang r = false /\ sr_used r = false /\ sr_removed r = false) /\
+  (sr_hang r = true <-> sr_refuse r = None /\ seed_is_fifo o /\ seed_open_nonblock = false) /\
+  (sr_hang r = true -> sr_used r = false /\ sr_removed r = false).
 Proof. exact seed_spec. Qed.
 Print Assumptions C16_seed_spec.
+
+(* observation / candidate finding: with the source as it stands (seed_open_nonblock = false) a FIFO at
+   the seed path wedges the start; once the seed is opened with O_NONBLOCK the same configuration starts,
+   the FIFO unused and unlinked.  Stated so that it checks on either side of the repair. *)
+Theorem C16_seed_fifo_outcome :
+  c_force fifo_seed_config = false /\
+  startup fifo_seed_config = (if seed_open_nonblock then None else Some (SSeed, WHang)) /\
+  (seed_open_nonblock = true -> sr_used (seed_of fifo_seed_config) = false /\
+                                sr_removed (seed_of fifo_seed_config) = true).
+Proof. split; [reflexivity|exact seed_fifo_outcome]. Qed.
+Print Assumptions C16_seed_fifo_outcome.
 
 (* log file (daemon mode): an existing one must be a regular non-symlink file of euid, not group- or
    world-writable; its directories may be group-writable *)
